@@ -6,7 +6,8 @@
 //   - range-over-map loops bracketed by simrt.NoPreempt(+1/-1)
 //   - (*bbolt.DB).Update/View/Batch calls wrapped in simrt.BoltTx
 //   - go statements -> simrt.Go
-//   - channel operations, select, sync.Cond -> refused (exit 2)
+//   - sync.Cond -> simrt.Cond; channel operations and select -> real operations
+//     bracketed by simrt.ChanBegin/ChanEnd (simrt's channel fallback)
 //
 // usage: instrument <dir-of-module-copy>
 package main
@@ -34,7 +35,7 @@ func die(code int, f string, a ...interface{}) {
 }
 
 type stats struct {
-	Files, Yields, Mutexes, MapRanges, BoltTx, GoStmts int
+	Files, Yields, Mutexes, MapRanges, BoltTx, GoStmts, ChanOps int
 }
 
 func main() {
@@ -87,8 +88,8 @@ func main() {
 			st.Files++
 		}
 	}
-	fmt.Printf("instrumented files=%d yields=%d locks=%d mapranges=%d bolttx=%d go=%d\n",
-		st.Files, st.Yields, st.Mutexes, st.MapRanges, st.BoltTx, st.GoStmts)
+	fmt.Printf("instrumented files=%d yields=%d locks=%d mapranges=%d bolttx=%d go=%d chanops=%d\n",
+		st.Files, st.Yields, st.Mutexes, st.MapRanges, st.BoltTx, st.GoStmts, st.ChanOps)
 }
 
 type inst struct {
@@ -98,6 +99,11 @@ type inst struct {
 	rel  string
 	st   *stats
 	used bool
+
+	listed   map[ast.Stmt]bool
+	isChan   func(ast.Expr) bool
+	commSend map[*ast.SendStmt]bool
+	tmp      int
 }
 
 func (in *inst) site(pos token.Pos) string {
@@ -123,26 +129,69 @@ func (in *inst) refuse(pos token.Pos, what string) {
 func (in *inst) run() {
 	info := in.pkg.TypesInfo
 
-	// 1. refuse what the runtime cannot own.
+	// 1. channel operations: note which receives and sends are the
+	// communication of a select clause (they stay as they are; the select as
+	// a whole is bracketed), refuse the few shapes the fallback cannot bracket.
+	commRecv := map[*ast.UnaryExpr]bool{}
+	commSend := map[*ast.SendStmt]bool{}
+	in.listed = map[ast.Stmt]bool{}
 	ast.Inspect(in.file, func(n ast.Node) bool {
 		switch x := n.(type) {
-		case *ast.SelectStmt:
-			in.refuse(x.Pos(), "select")
-		case *ast.SendStmt:
-			in.refuse(x.Pos(), "channel send")
-		case *ast.UnaryExpr:
-			if x.Op == token.ARROW {
-				in.refuse(x.Pos(), "channel receive")
+		case *ast.BlockStmt:
+			for _, st := range x.List {
+				in.listed[st] = true
 			}
-		case *ast.RangeStmt:
-			if tv, ok := info.Types[x.X]; ok {
-				if _, isChan := tv.Type.Underlying().(*types.Chan); isChan {
-					in.refuse(x.Pos(), "range over channel")
+		case *ast.CaseClause:
+			for _, st := range x.Body {
+				in.listed[st] = true
+			}
+		case *ast.CommClause:
+			for _, st := range x.Body {
+				in.listed[st] = true
+			}
+			switch c := x.Comm.(type) {
+			case *ast.SendStmt:
+				commSend[c] = true
+			case *ast.ExprStmt:
+				if u, ok := c.X.(*ast.UnaryExpr); ok {
+					commRecv[u] = true
 				}
+			case *ast.AssignStmt:
+				if len(c.Rhs) == 1 {
+					if u, ok := c.Rhs[0].(*ast.UnaryExpr); ok {
+						commRecv[u] = true
+					}
+				}
+			}
+		case *ast.LabeledStmt:
+			if in.listed[x] {
+				in.listed[x.Stmt] = true
 			}
 		}
 		return true
 	})
+	ast.Inspect(in.file, func(n ast.Node) bool {
+		switch x := n.(type) {
+		case *ast.SendStmt:
+			if !commSend[x] && !in.listed[x] {
+				in.refuse(x.Pos(), "channel send outside a statement list")
+			}
+		case *ast.SelectStmt:
+			if !in.listed[x] {
+				in.refuse(x.Pos(), "select outside a statement list")
+			}
+		}
+		return true
+	})
+	isChan := func(e ast.Expr) bool {
+		if tv, ok := info.Types[e]; ok && tv.Type != nil {
+			_, is := tv.Type.Underlying().(*types.Chan)
+			return is
+		}
+		return false
+	}
+	in.isChan = isChan
+	in.commSend = commSend
 
 	// 2. sync types -> simrt types, bolt transactions, go statements.
 	astutil.Apply(in.file, func(c *astutil.Cursor) bool {
@@ -150,20 +199,48 @@ func (in *inst) run() {
 		case *ast.SelectorExpr:
 			if obj, ok := info.Uses[x.Sel].(*types.TypeName); ok && obj.Pkg() != nil && obj.Pkg().Path() == "sync" {
 				switch obj.Name() {
-				case "Mutex", "RWMutex", "WaitGroup", "Once":
+				case "Mutex", "RWMutex", "WaitGroup", "Once", "Cond":
 					c.Replace(&ast.SelectorExpr{X: ast.NewIdent("simrt"), Sel: ast.NewIdent(obj.Name())})
 					in.st.Mutexes++
 					in.used = true
 					return false
-				case "Cond":
-					in.refuse(x.Pos(), "sync.Cond")
 				}
+			}
+			if obj, ok := info.Uses[x.Sel].(*types.Func); ok && obj.Pkg() != nil && obj.Pkg().Path() == "sync" && obj.Name() == "NewCond" {
+				c.Replace(&ast.SelectorExpr{X: ast.NewIdent("simrt"), Sel: ast.NewIdent("NewCond")})
+				in.used = true
+				return false
 			}
 		}
 		return true
 	}, func(c *astutil.Cursor) bool {
 		switch x := c.Node().(type) {
+		case *ast.UnaryExpr:
+			if x.Op == token.ARROW && !commRecv[x] {
+				fn := "Recv"
+				switch p := c.Parent().(type) {
+				case *ast.AssignStmt:
+					if len(p.Lhs) == 2 && len(p.Rhs) == 1 {
+						fn = "Recv2"
+					}
+				case *ast.ValueSpec:
+					if len(p.Names) == 2 && len(p.Values) == 1 {
+						fn = "Recv2"
+					}
+				}
+				c.Replace(simCall(fn, strLit(in.site(x.Pos())), x.X))
+				in.st.ChanOps++
+				in.used = true
+			}
 		case *ast.CallExpr:
+			if id, ok := x.Fun.(*ast.Ident); ok && id.Name == "close" && len(x.Args) == 1 {
+				if _, builtin := info.Uses[id].(*types.Builtin); builtin {
+					c.Replace(simCall("Close", strLit(in.site(x.Pos())), x.Args[0]))
+					in.st.ChanOps++
+					in.used = true
+					return true
+				}
+			}
 			if sel, ok := x.Fun.(*ast.SelectorExpr); ok {
 				switch sel.Sel.Name {
 				case "Update", "View", "Batch":
@@ -223,6 +300,72 @@ func isBoltDB(t types.Type) bool {
 	return n.Obj().Name() == "DB" && strings.HasSuffix(n.Obj().Pkg().Path(), "bbolt")
 }
 
+// chanStmt rewrites the statements that operate on channels as statements:
+// a send, a select and a range over a channel.  (Receive expressions and
+// close calls were replaced by simrt.Recv/Recv2/Close where they stand.)
+func (in *inst) chanStmt(s ast.Stmt) ([]ast.Stmt, bool) {
+	inner, labels := s, []*ast.LabeledStmt(nil)
+	for {
+		if l, ok := inner.(*ast.LabeledStmt); ok {
+			labels = append(labels, l)
+			inner = l.Stmt
+			continue
+		}
+		break
+	}
+	begin := func(pos token.Pos) ast.Stmt {
+		return &ast.ExprStmt{X: simCall("ChanBegin", strLit(in.site(pos)))}
+	}
+	end := func() ast.Stmt { return &ast.ExprStmt{X: simCall("ChanEnd")} }
+	switch x := inner.(type) {
+	case *ast.SendStmt:
+		if in.commSend[x] {
+			return nil, false
+		}
+		in.st.ChanOps++
+		return []ast.Stmt{begin(x.Pos()), s, end()}, true
+	case *ast.SelectStmt:
+		in.st.ChanOps++
+		for _, c := range x.Body.List {
+			cc := c.(*ast.CommClause)
+			cc.Body = append([]ast.Stmt{end()}, cc.Body...)
+		}
+		return []ast.Stmt{begin(x.Pos()), s}, true
+	case *ast.RangeStmt:
+		if !in.isChan(x.X) {
+			return nil, false
+		}
+		in.st.ChanOps++
+		in.tmp++
+		chName, okName := fmt.Sprintf("simrtCh%d", in.tmp), fmt.Sprintf("simrtOK%d", in.tmp)
+		hoist := &ast.AssignStmt{Lhs: []ast.Expr{ast.NewIdent(chName)}, Tok: token.DEFINE, Rhs: []ast.Expr{x.X}}
+		recv := simCall("Recv2", strLit(in.site(x.Pos())), ast.NewIdent(chName))
+		var head []ast.Stmt
+		switch {
+		case x.Key == nil:
+			head = append(head, &ast.AssignStmt{Lhs: []ast.Expr{ast.NewIdent("_"), ast.NewIdent(okName)}, Tok: token.DEFINE, Rhs: []ast.Expr{recv}})
+		case x.Tok == token.DEFINE:
+			head = append(head, &ast.AssignStmt{Lhs: []ast.Expr{x.Key, ast.NewIdent(okName)}, Tok: token.DEFINE, Rhs: []ast.Expr{recv}})
+		default:
+			head = append(head,
+				&ast.DeclStmt{Decl: &ast.GenDecl{Tok: token.VAR, Specs: []ast.Spec{&ast.ValueSpec{Names: []*ast.Ident{ast.NewIdent(okName)}, Type: ast.NewIdent("bool")}}}},
+				&ast.AssignStmt{Lhs: []ast.Expr{x.Key, ast.NewIdent(okName)}, Tok: token.ASSIGN, Rhs: []ast.Expr{recv}})
+		}
+		head = append(head, &ast.IfStmt{Cond: &ast.UnaryExpr{Op: token.NOT, X: ast.NewIdent(okName)}, Body: &ast.BlockStmt{List: []ast.Stmt{&ast.BranchStmt{Tok: token.BREAK}}}})
+		if x.Key != nil && x.Tok == token.DEFINE {
+			// the loop variable may be unused in the body
+			head = append(head, &ast.AssignStmt{Lhs: []ast.Expr{ast.NewIdent("_")}, Tok: token.ASSIGN, Rhs: []ast.Expr{ast.NewIdent(x.Key.(*ast.Ident).Name)}})
+		}
+		loop := ast.Stmt(&ast.ForStmt{Body: &ast.BlockStmt{List: append(head, &ast.BlockStmt{List: x.Body.List, Lbrace: x.Body.Lbrace})}})
+		for i := len(labels) - 1; i >= 0; i-- {
+			labels[i].Stmt = loop
+			loop = labels[i]
+		}
+		return []ast.Stmt{hoist, loop}, true
+	}
+	return nil, false
+}
+
 func (in *inst) isMapRange(s ast.Stmt) (*ast.RangeStmt, bool) {
 	for {
 		if l, ok := s.(*ast.LabeledStmt); ok {
@@ -261,6 +404,10 @@ func (in *inst) rewriteList(list []ast.Stmt) []ast.Stmt {
 		out = append(out, &ast.ExprStmt{X: simCall("Yield", strLit(in.site(s.Pos())))})
 		in.st.Yields++
 		in.used = true
+		if more, ok := in.chanStmt(s); ok {
+			out = append(out, more...)
+			continue
+		}
 		if r, ok := in.isMapRange(s); ok {
 			in.st.MapRanges++
 			in.leaveMapRange(r)
